@@ -185,4 +185,3 @@ func init() {
 		return vx.RunSched(c, sc, sigOf("C02"))
 	}})
 }
-
